@@ -3,13 +3,13 @@
      tok = K:<parses 0|1>:<random hex>:<ts seconds | ->   declares packet #k (in order)
          | S:<d ns>  sleep        | P:<k>  present packet k      | C:<k>:<n>  n simultaneous presentations
    optional first token after start: M:<rule>:<key>  (rule = fixed|one|prefix, key = mask|raw) - default fixed/mask
-   output line: <id> s<cleans run> | a | r | o | c<accepted>,<replays>,<other> ... *)
+   output line: <id> <obs>/<cache size> ...   obs = s | a | r | o | c<accepted>,<replays>,<other> *)
 let z_of_int i = if i = 0 then Z0 else if i > 0 then Zpos (pos_of_int i) else Zneg (pos_of_int (-i))
 let show_out = function OAccept -> "a" | OReplay -> "r" | OOther -> "o"
 let show_obs = function
-  | ObsSleep n -> "s" ^ string_of_int (int_of_nat n)
-  | ObsPresent o -> show_out o
-  | ObsConc (a, r, o) -> Printf.sprintf "c%d,%d,%d" (int_of_nat a) (int_of_nat r) (int_of_nat o)
+  | ObsSleep sz -> "s/" ^ string_of_int (int_of_nat sz)
+  | ObsPresent (o, sz) -> show_out o ^ "/" ^ string_of_int (int_of_nat sz)
+  | ObsConc (a, r, o, sz) -> Printf.sprintf "c%d,%d,%d/%d" (int_of_nat a) (int_of_nat r) (int_of_nat o) (int_of_nat sz)
 let () = iter_lines (fun line ->
   match split_ws line with
   | id :: start :: toks ->
